@@ -237,3 +237,63 @@ Print Assumptions loop_contract_satisfiable.
 Example laplace_hypotheses_satisfiable : feqb Rleb (-1) 0 = false /\ fltb Rleb (-1) 0 = true.
 Proof. exact ex_laplace. Qed.
 Print Assumptions laplace_hypotheses_satisfiable.
+
+(* ---- input forms of get_source_field: coordinates + keywords (strength,
+        length, electric) are turned into the electrodes of the Tx* instance;
+        `length` is forwarded for the 5-element point format ---- *)
+Section Forms.
+  Context {F : Type} {FO : FOps F}.
+  Hypothesis Fth : field_theory F0 F1 Fadd Fmul Fsub Fopp Fdiv Finv (@eq F).
+  Variable leb : F -> F -> bool.
+  Variables cosd sind sqrt : F -> F.
+  Variable angle : F -> F -> F.
+
+  Theorem input_form_point electric c az el len :
+    plain_points leb cosd sind sqrt angle electric (PI_dip (DPoint c az el)) len
+    = dipole_points leb cosd sind sqrt angle (negb electric) (DPoint c az el) len.
+  Proof. exact (plain_point_form leb cosd sind sqrt angle electric c az el len). Qed.
+
+  Theorem input_form_electrodes electric x1 x2 y1 y2 z1 z2 len len' :
+    plain_points leb cosd sind sqrt angle electric (PI_dip (DFlat x1 x2 y1 y2 z1 z2)) len
+    = dipole_points leb cosd sind sqrt angle (negb electric) (DPair (mkP3 x1 y1 z1) (mkP3 x2 y2 z2)) len' /\
+    plain_points leb cosd sind sqrt angle electric (PI_dip (DPair (mkP3 x1 y1 z1) (mkP3 x2 y2 z2))) len
+    = dipole_points leb cosd sind sqrt angle (negb electric) (DPair (mkP3 x1 y1 z1) (mkP3 x2 y2 z2)) len'.
+  Proof. exact (plain_electrode_forms leb cosd sind sqrt angle electric x1 x2 y1 y2 z1 z2 len len'). Qed.
+
+  (* magnetic dipole as (x, y, z, az, el) + length: the loop of AREA = length *)
+  Theorem input_form_magnetic_point_area c az el len :
+    plain_points leb cosd sind sqrt angle false (PI_dip (DPoint c az el)) len
+    = Some (point_to_square_loop cosd sind sqrt c az el len).
+  Proof. exact (plain_magnetic_point_loop leb cosd sind sqrt angle c az el len). Qed.
+
+  Theorem input_form_electric_point_length c az el len :
+    plain_points leb cosd sind sqrt angle true (PI_dip (DPoint c az el)) len
+    = Some (fst (point_to_dipole cosd sind c az el len) :: snd (point_to_dipole cosd sind c az el len) :: nil)%list.
+  Proof. exact (plain_electric_point_dipole leb cosd sind sqrt angle c az el len). Qed.
+
+  (* the trilinear spread keeps the first moment across the cell (hence the
+     discrete magnetic moment 1/2 sum r x j of a wire equals 1/2 oint r x dl) *)
+  Theorem spread_keeps_first_moment (xc n h : F) : h <> 0%F ->
+    ((1 - (xc - n) / h) * n + (xc - n) / h * (n + h) = xc)%F.
+  Proof. exact (spread_first_moment Fth xc n h). Qed.
+End Forms.
+Print Assumptions input_form_point.
+Print Assumptions input_form_electrodes.
+Print Assumptions input_form_magnetic_point_area.
+Print Assumptions input_form_electric_point_length.
+Print Assumptions spread_keeps_first_moment.
+
+(* ---- magnetic moment of the loop: 1/2 sum_i (q_i - c) x (q_{i+1} - c) = area * rotation ---- *)
+Theorem loop_magnetic_moment (cosd sind sqrt : R -> R) (az el area : R) (c : P3 R) :
+  cosd az * cosd az + sind az * sind az = 1 -> cosd el * cosd el + sind el * sind el = 1 ->
+  cosd (az + 90) = - sind az -> sind (az + 90) = cosd az ->
+  cosd (el + 90) = - sind el -> sind (el + 90) = cosd el ->
+  cosd 0 = 1 -> sind 0 = 0 -> sqrt (area / 2) * sqrt (area / 2) = area / 2 ->
+  exists q0 q1 q2 q3 q4,
+    point_to_square_loop cosd sind sqrt c az el area = (q0 :: q1 :: q2 :: q3 :: q4 :: nil)%list /\
+    (let n := rotation cosd sind az el in
+     let m := padd3 (padd3 (pcross (pminus q0 c) (pminus q1 c)) (pcross (pminus q1 c) (pminus q2 c)))
+                    (padd3 (pcross (pminus q2 c) (pminus q3 c)) (pcross (pminus q3 c) (pminus q4 c))) in
+     m = mkP3 (2 * (area * px n)) (2 * (area * py n)) (2 * (area * pz n))).
+Proof. intros. apply loop_moment; assumption. Qed.
+Print Assumptions loop_magnetic_moment.
